@@ -107,6 +107,12 @@ func main() {
 			}
 		}
 		fmt.Printf("copy-field obligations=%d not-discharged=%d\n", len(obs), bad)
+	case "condonly":
+		for n := range e.cs.Schema {
+			if c := e.conditionalOnly(n); len(c) > 0 {
+				fmt.Println(n, c)
+			}
+		}
 	case "printforms":
 		bad := 0
 		obs := e.printFormObligations()
